@@ -29,7 +29,7 @@ def rules(model: Model, tier: str) -> List[RuleResult]:
     H = RuleResult(PROP, "C17-H", "hess: gradient closure is a sibling of the function; operator flagged Hermitian", min_instances=3)
     R3 = RuleResult(PROP, "AC3", "create_graph follows the caller in all autograd.grad calls of jachess.py", min_instances=5)
     K = RuleResult(PROP, "C17-K", "cache-key coverage: every tensor named by _getparamnames is identity-checked", min_instances=3)
-    G = RuleResult(PROP, "C17-G", "products connect both parameter groups; re-evaluation under useobjparams + enable_grad", min_instances=6)
+    G = RuleResult(PROP, "C17-G", "products connect both parameter groups; re-evaluation under useobjparams + enable_grad, identical in _mv and _rmv", min_instances=8)
     X = RuleResult(PROP, "C17-X", "the argument index subscripts only the full argument list; nested functions differentiate w.r.t. their own arguments", min_instances=5)
     _validation(model, V)
     _construction_order(model, V)
@@ -39,6 +39,7 @@ def rules(model: Model, tier: str) -> List[RuleResult]:
     ac.ac3_create_graph(model, R3, files={JAC})
     _cache_key(model, K)
     _connect(model, G)
+    refresh_consistency(model, G)
     _index_space(model, X)
     return [V, S, H, R3, K, G, X]
 
@@ -97,6 +98,52 @@ def _validation(model: Model, V: RuleResult):
                 V.bad(f, val[0].stmt, "%s validates the indices but constructs the operators from something else" % q)
         else:
             V.bad(f, cons[0].stmt, "%s constructs a _Jac operator on a path that skips _setup_idxs" % q)
+
+
+def refresh_consistency(model: Model, G: RuleResult):
+    """_mv and _rmv re-evaluate the function in the same way when the parameters were substituted (sibling cross-check): under the same
+    context managers, the refresh `__update_params()` is called, and `yparam` / the function arguments are read from what that
+    refresh produced - in both products.  A refresh that is adapted in one product only leaves the other on the construction-time
+    tensors (values right, graph connected to the wrong tensors)."""
+    mv, rmv = model.func(JAC, "_Jac._mv"), model.func(JAC, "_Jac._rmv")
+    up = model.func(JAC, "_Jac.__update_params")
+    writes = any(isinstance(s_, ast.Assign) and any(ast.unparse(t) == "self.params" for t in s_.targets) for s_ in own_nodes(up.node))
+    returns = any(isinstance(r, ast.Return) and r.value is not None for r in own_nodes(up.node))
+
+    def refresh_sig(fi):
+        """(with items, how the refreshed list is obtained, source of yparam, arguments of fcn) in the parameters-changed branch"""
+        for w in ast.walk(fi.node):
+            if isinstance(w, ast.With) and any("useobjparams" in ast.unparse(i.context_expr) for i in w.items):
+                items = sorted(ast.unparse(i.context_expr) for i in w.items)
+                upd = None
+                ypar = None
+                fargs = None
+                for s_ in w.body:
+                    src = ast.unparse(s_)
+                    if "__update_params()" in src:
+                        upd = "stored" if isinstance(s_, ast.Expr) else ("returned:" + ast.unparse(s_.targets[0]) if isinstance(s_, ast.Assign) else src)
+                    if isinstance(s_, ast.Assign) and ast.unparse(s_.targets[0]) == "yparam":
+                        ypar = ast.unparse(s_.value)
+                    if isinstance(s_, ast.Assign) and isinstance(s_.value, ast.Call) and ast.unparse(s_.value.func) == "self.fcn":
+                        fargs = [ast.unparse(a) for a in s_.value.args]
+                return (tuple(items), upd, ypar, tuple(fargs or []))
+        return None
+    a, b = refresh_sig(mv), refresh_sig(rmv)
+    if a is None or b is None:
+        G.bad(mv if a is None else rmv, (mv if a is None else rmv).node, "the parameters-changed branch (re-evaluation under useobjparams) was not found")
+        return
+    if a == b:
+        G.ok(rmv.fq, "_mv and _rmv refresh identically: %s, yparam = %s, fcn(%s)" % (a[1], a[2], ", ".join(a[3])))
+    else:
+        G.bad(rmv, rmv.node, "_mv and _rmv re-evaluate the function differently after a parameter substitution (_mv: %s / _rmv: %s): one of the products stays on the "
+              "construction-time tensors" % (a[1:], b[1:]))
+    # the way the refreshed list is consumed matches what __update_params does with it
+    mode = a[1] or ""
+    consistent = (mode == "stored" and writes and "self.params" in (a[2] or "")) or (mode.startswith("returned:") and returns and mode.split(":")[1] in (a[2] or ""))
+    if consistent and a == b:
+        G.ok(up.fq, "__update_params %s the re-assembled list and both products read it from there" % ("stores" if mode == "stored" else "returns"))
+    else:
+        G.bad(up, up.node, "__update_params %s the re-assembled parameter list but a product reads it from %s" % ("stores" if writes else "returns", (b[2] if a == b else "%s / %s" % (a[2], b[2]))))
 
 
 def _construction_order(model: Model, V: RuleResult):
